@@ -459,6 +459,26 @@ def prove_retry(src_root, ex: Explorer):
     ex.run(path, 'retry-uploader')
 
 
+def prove_retry_downloader(src_root, ex: Explorer):
+    """Downloader half of the retry path: PeerUploadFailed (the uploader tells us its attempt failed) for a download that still wants the
+    file - QUEUED or INCOMPLETE - clears the remotely_queued mark and requests a management cycle, so that the download is queued
+    remotely again.  Otherwise the download waits for an upload that never comes."""
+    def path(ctx: Ctx):
+        from contracts import C08
+        it = mk(src_root, ctx)
+        sname = ['QUEUED', 'INCOMPLETE'][ctx.choose(2, 'state')]
+        w = C08.mk_transfer_manager(it, ctx, blocked=False)
+        st = Stub('state', VALUE=enum(it, 'transfer.state', 'TransferState.State', sname))
+        t = new(it, MODEL, 'Transfer', username='bob', remote_path='f', remotely_queued=True, state=st)
+        cycles = []
+        it.hooks[f'{MGR}:TransferManager.find_transfer'] = lambda it2, f, a, k: t
+        it.hooks[f'{MGR}:TransferManager.request_management_cycle'] = lambda it2, f, a, k: cycles.append(a[1])
+        run(it, it.getattr(w['mgr'], '_on_peer_upload_failed'), Stub('PeerUploadFailed', filename=Sym(ctx.fresh_str('filename'), 'str')), w['conn'])
+        ctx.prove(f'C04.retry.downloader[{sname}]', t.attrs['remotely_queued'] is False and len(cycles) == 1,
+                  'after PeerUploadFailed a download that still wants the file must be queued remotely again (mark cleared, cycle requested)')
+    ex.run(path, 'retry-downloader')
+
+
 def prove_offset_survives(src_root, ex: Explorer):
     """The negotiated resume offset is stored by set_offset() during the negotiation and the COMPLETE guard counts from it
     (bytes_transfered == filesize).  The transition that starts the byte phase (InitializingState.start_transferring, real code, both
@@ -485,6 +505,65 @@ def prove_offset_survives(src_root, ex: Explorer):
     ex.run(path, 'offset-survives')
 
 
+def prove_waits_for_close(src_root, ex: Explorer):
+    """receive_until_eof (what _upload_file awaits before it may call complete()): ONE unbounded read to end-of-stream through _read with
+    NO time-out - it returns only when the peer closed the connection (EOF) or the connection broke; the data or b'' is returned, a
+    read error is re-raised iff raise_exception.  With a time-out the upload would be COMPLETE while the peer is still reading."""
+    def path(ctx: Ctx):
+        it = mk(src_root, ctx)
+        c = mk_conn(it, ctx)
+        oc = ['eof-data', 'error'][ctx.choose(2, 'outcome')]
+        raise_exc = ctx.choose(2, 'raise_exception') == 1
+        reads, calls = [], []
+        data, n = blob(ctx, 'tail')
+        c.attrs['_reader'] = Stub('reader', read=Recorder('read', fn=lambda it2, a, k: (reads.append(a), 'READ-CORO')[1]))
+        c.attrs['read_timeout'] = 5.0
+
+        def c_read(it2, f, a, k):
+            calls.append((a[1:], dict(k)))
+
+            def body(it3):
+                if oc == 'error':
+                    raise PyRaise(ExcVal(cls(it3, 'exceptions', 'ConnectionReadError'), ('x',)))
+                return data
+            return A.SimpleAwaitable(it2.aio, '_read', body)
+        it.hooks[f'{CONN}:DataConnection._read'] = c_read
+        try:
+            r = run(it, it.getattr(c, 'receive_until_eof'), raise_exception=raise_exc)
+            raised = None
+        except PyRaise as pr:
+            r, raised = None, pr.exc.cls.name
+        one = len(calls) == 1 and calls[0][0][:1] == ['READ-CORO'] and len(reads) == 1 and [unbox(x) for x in reads[0]] in ([-1], [])
+        no_timeout = one and not calls[0][1].get('timeout') and len(calls[0][0]) == 1
+        ctx.prove('C04.receive_until_eof.waits-for-close', one and no_timeout,
+                  f'the wait for the peer to close must be one read to end-of-stream WITHOUT a time-out (calls {calls!r}, reads {reads!r})')
+        if oc == 'eof-data':
+            ctx.prove('C04.receive_until_eof.result[eof]', raised is None and r is data)
+        else:
+            ctx.prove(f'C04.receive_until_eof.result[error,raise={raise_exc}]', (raised == 'ConnectionReadError') if raise_exc else
+                      (raised is None and (r == b'' or (hasattr(r, 'length') and ctx.valid(r.length() == 0)))))
+    ex.run(path, 'receive_until_eof')
+
+
+def prove_positive_grant(src_root, ex: Explorer):
+    """receive_file treats a read of 0 bytes as end of stream and send_file an empty read as end of file: the number of tokens handed out by
+    the limiter must be positive, always (C20.take.grant: a grant is exactly one chunk; the unlimited limiter returns its constant).  The
+    take-step contract of C20 is discharged here as well."""
+    from contracts import C20
+    C20.prove_take(src_root, ex, 0, '')
+    # only the grant clause is needed here (the window invariant, with its recorded finding, belongs to C20)
+    ex.obligations[:] = [ob for ob in ex.obligations if ob.name.startswith(('C20.take.grant', 'C20.take.no-raise', 'C20.take.atomic'))]
+    for ob in ex.obligations:
+        ob.name = 'C04.limiter-grant' + ob.name[len('C20.take'):]
+
+    def unlimited(ctx: Ctx):
+        it = mk(src_root, ctx)
+        o = new(it, 'network.rate_limiter', 'UnlimitedRateLimiter', limit_bps=0, bucket=0, last_refill=0.0)
+        r = run(it, it.getattr(o, 'take_tokens'))
+        ctx.prove('C04.limiter-grant.unlimited', isinstance(unbox(r), int) and unbox(r) >= 1, 'the unlimited limiter must hand out a positive number of bytes')
+    ex.run(unlimited, 'unlimited-grant')
+
+
 def prove_break_is_error(src_root, ex: Explorer):
     """_download_file distinguishes an orderly end of stream (receive_data returns None: the size guard decides COMPLETE / INCOMPLETE)
     from a broken connection (ConnectionReadError: INCOMPLETE, retried).  That rests on the contract of DataConnection._read - a reset,
@@ -498,7 +577,7 @@ def prove_break_is_error(src_root, ex: Explorer):
 
 
 def items(src_root, tier):
-    return [('break-is-error', None), ('offset-survives', None), ('receive_file', None), ('send_file', None), ('download_file', None), ('upload_file', None), ('offset', None), ('retry', None)]
+    return [('break-is-error', None), ('retry-downloader', None), ('positive-grant', None), ('waits-for-close', None), ('offset-survives', None), ('receive_file', None), ('send_file', None), ('download_file', None), ('upload_file', None), ('offset', None), ('retry', None)]
 
 
 def run_item(src_root, item, tier):
@@ -507,7 +586,7 @@ def run_item(src_root, item, tier):
     kind, arg = item
     try:
         {'receive_file': prove_receive_file, 'send_file': prove_send_file, 'download_file': prove_download_file,
-         'upload_file': prove_upload_file, 'offset': prove_offset, 'retry': prove_retry, 'offset-survives': prove_offset_survives, 'break-is-error': prove_break_is_error}[kind](src_root, ex)
+         'upload_file': prove_upload_file, 'offset': prove_offset, 'retry': prove_retry, 'offset-survives': prove_offset_survives, 'break-is-error': prove_break_is_error, 'waits-for-close': prove_waits_for_close, 'positive-grant': prove_positive_grant, 'retry-downloader': prove_retry_downloader}[kind](src_root, ex)
     except Unsupported as e:
         res.errors.append(f'{kind}: unsupported: {e}')
     collect(res, ex)
